@@ -562,7 +562,7 @@ def s1_single_writer(ctx, rep):
             rep.note_fn(b.path)
             rep.check(b.path in gbodies, R, "writer-is-reducer-thread:" + short(b.path), ctx.where(b, i, si), "state cell written on the reducer thread's pass", "state cell written outside the reducer thread's pass: a second writer")
         rep.check(len(ms) <= len(ws), R, "no-other-mutable-access:" + short(b.path), ctx.where(b), "no mutable access to the state cell besides the write-back" if ms else "no mutable access", "mutable access to the state cell that is not the plain write-back (%d deref_mut vs %d stores)" % (len(ms), len(ws))) if (ms or ws) else None
-    rep.floor(R, "lock sites of the state cell", nlock, 3)
+    rep.floor(R, "lock sites of the state cell", nlock, 2)  # a writer and a reader at least (today 3: the pass reads, writes back, get_state reads)
     rep.exact(R, "writers of the state cell", sum(len(state_writes(ctx, b)) for b in ctx.prog.bodies), 1)
     # the field is private
     fl = [f for f in A.fields(A.store) if f["name"] == A.f_state][0]
